@@ -752,6 +752,9 @@ def cases(tier):
     for name, mk, info in cat:
         if info.get("fam") == "prim" and name in ("Circle", "Interval"):
             cs.append(encloses_case(name, mk, info, 0, boundary=True))
+        if name in ("(Circle*Interval)", "(Circle+Parallelogram)", "(Interval-Interval)"):
+            # boundaries whose dimension is lower than that of their space (the boundary of a product IS a union)
+            cs.append(encloses_case(name, mk, info, 0, boundary=True))
     for op in ("+", "-", "&", "product"):
         cs.append(abstract_case(op))
     for k in (0, 1, 2):
